@@ -8,6 +8,24 @@
 # rule: how cases are generated and what makes one non-trivial / distinct (copied into evidence)
 
 PROPS = {
+    "C13": {
+        "level": "exploration",
+        "rule": "TestC13Interleave: rapid pairs of ids (unrelated, or sharing a prefix of any length), and for each EVERY prefix "
+                "length 0..64 of the combined id: CombineIds follows the documented PSPS... pattern (encoded independently), "
+                "SeparateIds of a prefix gives a prefix of each part with np+ns=n, both monotone, 50/14 at full length and the "
+                "documented 5/7/10/16 breakdowns. TestC13Resolve: populations of 2..8 (thorough 12) bugs with 0..5 comments whose "
+                "create and comment operation ids are ground (nonce search) to share 0..3 / 0..2 character prefixes; for every bug "
+                "id and every combined comment id EVERY prefix length 0..64 plus a near-miss per length: reference match set by "
+                "plain string prefix; one match => that entity (ResolvePrefix, ResolveExcerptPrefix, identities), several => "
+                "ErrMultipleMatch whose Matching equals the set, none => ErrNotFound; ResolveComment returns exactly the pair when "
+                "one comment matches and an error otherwise. Non-trivial: a population with ambiguous prefixes. Distinct: "
+                "shared-prefix length (pairs) / multiset of (id prefix, comment count).",
+        "exhaustive": False,
+        "exhaustive_note": "prefix lengths 0..64 are enumerated exhaustively for every generated id, combined id and population; populations are sampled",
+        "assumptions": ["for zero or several matching comments only 'an error, never a pair' is asserted (the statement does not name the error type)"],
+        "tests": [{"name": "TestC13Interleave", "quick": 3000, "thorough": 50000, "shards": 2},
+                  {"name": "TestC13Resolve", "quick": 120, "shards_quick": 2, "thorough": 600, "shards": 12}],
+    },
     "C12": {
         "level": "exploration",
         "rule": "TestC12ParseRobust: strings over an alphabet of both quotes, colon, ASCII and unicode spaces, letters, emoji and the "
@@ -228,6 +246,13 @@ PROPS = {
 
 # Text for MANIFEST.json, per claimed property.
 MANIFEST_TEXT = {
+    "C13": {
+        "technique": "property-based testing (rapid) with nonce-ground id populations; exhaustive enumeration of prefix lengths vs a plain string-prefix reference",
+        "level_text": "Every prefix length of every id of generated populations with engineered shared prefixes is resolved and compared with "
+                      "the reference match set; the interleaving law is checked against an independent encoding of the documented pattern.",
+        "design_ref": "DESIGN.md §4 C13",
+        "level_note": "Trusted: the documented pattern string as the specification of the interleaving.",
+    },
     "C12": {
         "technique": "property-based testing (rapid): grammar-based query generation with parse round trip; reference evaluator over generated bug populations; native fuzzing of the parser in the thorough tier",
         "level_text": "Round-trip and differential oracles over generated query strings and populations. Exploration.",
